@@ -244,7 +244,17 @@ PROPS["C17"] = {"run": lambda p, tier, seed, replay, t0: run_node_property(
 
 ALL_POLL_KINDS = {"send", "poll-offsets", "poll-content", "poll-cur", "poll-status", "poll-partition",
                   "purge-topic", "flush", "restart"}
-PROPS["C01"] = storage("C01", "Iggy.Props.C01", ["poll-", "obs-changed"], ALL_POLL_KINDS, ASSUME_NODE)
+def _gen_c01(rng, focus, k=None, maxops=40):
+    # the property's histories include retention passes and roll-overs caused by expiry: every third history
+    if k is not None and k % 3 == 2:
+        return gen_storage.gen_retention(rng, focus, k, maxops)
+    return gen_storage.gen(rng, focus, k, maxops)
+
+
+PROPS["C01"] = {"run": lambda p, tier, seed, replay, t0: run_node_property(
+    p, tier, seed, replay, t0, module="Iggy.Props.C01", gen=_gen_c01, n_quick=400, n_thorough=4000,
+    spec_prefixes=["poll-", "obs-changed", "retention-illegal"], corr_kinds=ALL_POLL_KINDS | {"maintain"},
+    assumptions=ASSUME_NODE)}
 PROPS["C02"] = storage("C02", "Iggy.Props.C02", ["poll-", "obs-changed"], ALL_POLL_KINDS, ASSUME_NODE)
 PROPS["C07"] = storage("C07", "Iggy.Props.C07", ["get-offset", "store-offset", "poll-next", "offset-", "obs-changed"],
                        {"offsets", "poll-offsets", "poll-content", "poll-status", "poll-cur", "purge-topic"},
@@ -561,7 +571,8 @@ PROPS["C05"] = {"run": lambda p, tier, seed, replay, t0: run_node_property(
     corr_kinds=CAT_KINDS | {"users", "user", "create-user", "delete-user", "update-user", "update-perms", "change-pw",
                             "create-pat", "delete-pat", "pats", "login", "login-pat"},
     assumptions=ASSUME_NODE)}
-PROPS["C06"] = catalog("C06", "Iggy.Props.C06", ["obs-changed", "poll-", "group-"], CAT_KINDS, ASSUME_NODE)
+PROPS["C06"] = catalog("C06", "Iggy.Props.C06", ["obs-changed", "poll-", "group-", "get-offset", "store-offset", "offset-"],
+                       CAT_KINDS | {"offsets"}, ASSUME_NODE)
 
 import gen_crypto
 PROPS["C19"] = {"run": lambda p, tier, seed, replay, t0: run_node_property(
@@ -598,14 +609,14 @@ def run_c04(prop, tier, seed, replay, t0):
     obligations = len(names) + examples
     vlib.build_harness()
     known = [k for k in vlib.load_known() if k["property"] == prop]
-    n = 40 if tier == "quick" else 400
+    n = 40 if tier == "quick" else 160
 
     def torn_points(length, rng, thorough):
         if length <= 1:
             return []
         pts = {1, 23, 24, 25, length - 1} | {rng.randint(1, length - 1) for _ in range(3)}
         if thorough:
-            pts |= set(range(1, min(length, 200)))
+            pts |= set(range(1, min(length, 72)))
         return sorted(j for j in pts if 0 < j < length)
 
     def one(k):
@@ -723,7 +734,7 @@ def run_c04(prop, tier, seed, replay, t0):
     coverage = {
         "obligations": obligations, "discharged": obligations if not bad else 0,
         "checker_cmd": f"lake build {module} judge && lake env lean Iggy/Audit/C04.lean (#print axioms)",
-        "trusted_base": COMMON_TB + ["hook H2b (file-mutation events) + the harness's directory copy at every event; thorough tier: every event x every torn length of an append"],
+        "trusted_base": COMMON_TB + ["hook H2b (file-mutation events) + the harness's directory copy at every event; thorough tier: every event x every torn length up to 71 bytes (and L-1) of an append"],
         "theorems": names, "nonvacuity_examples": examples, "axioms_used": axioms,
         "traces_validated_against_impl": len(results), "evaluations": images,
         "distinct_nontrivial": len({(r[1]["save"], r[1]["seg"], r[5], r[6]) for r in results}),
